@@ -210,6 +210,11 @@ func planC10(prop string, seed uint64, tier string, idx int) *Plan {
 	if g.r.chance(30) {
 		k.UploadMax = g.r.pick(1, 2, 3)
 	}
+	if g.r.chance(12) {
+		// the layout is the same valid layout with the referrers API switched off (from the first start on)
+		k.Referrer = 0
+		g.p.Profile += ", referrers API off"
+	}
 	if idx%4 == 0 {
 		g.fewTags = true
 		g.tagPool = []string{"t", "t0", "tx"}
